@@ -8,6 +8,16 @@ untouched" holds by construction in the model; sharing and in-place mutation of 
 run-time fact the correspondence run checks (source snapshot before / after every derivation).
 Transposition and `Table.concatenate` are in the model too (`transposeT`, `concatT`); for them the correspondence
 compares shapes (numpy renders the transposed cells, and `concatenate` lists the common columns in set order).
+
+**Which tree.**  The model transcribes `/repo` as it stands now (pinned commit plus the `fix:` commits, here D27: a string
+scalar of the table's length no longer becomes a column).
+
+**What has NO formal content here** (oracle / correspondence only): column EXPRESSIONS (`t['a+2*b']`, `t.cols['a+b']`) have
+no model; SCALAR entries do not exist in `newT` (every entry is a column) and for the nearest analogue — an unlisted data
+entry — the model's `selectCols` / `copyT` drop it while the property says scalars are carried over; `C14_source_unchanged`
+is `rfl` on immutable values (its docstring says so); `C14_chain_rect` is the older chain theorem over `Deriv`, superseded by
+`C14_chain_from_constructor` over `Deriv2` (which includes assignments and a second table).  The chain theorems conclude
+`Rect` only; `Coherent` along the same steps is C07's `TOp` history theorem, over a different op language.
 -/
 namespace Properties.C14
 open TableM Cache
